@@ -50,6 +50,11 @@ FAMILIES = {
     'value-core': dict(kinds=['SUB', 'LT', 'IF', 'LET', 'MKS', 'GETA', 'MKA', 'TOS', 'TOA', 'SMAP', 'SFILT', 'FOLD'],
                        roots='iat', if_types='i', let_types='i',
                        leaves={'i': ['x', 'c'], 'b': ['p'], 'a': ['A'], 's': ['SA']}),
+    # small aggregation / scan families that reach AggLet lifting within few nodes
+    'aggcore': dict(kinds=['LSUB', 'LLT', 'SUM', 'AGGF', 'SAGG'], roots='l', if_types='', let_types='',
+                    leaves={'b': ['p'], 'l': ['y', 'd'], 'S': ['SB']}),
+    'scancore': dict(kinds=['LSUB', 'LLT', 'SCAN', 'SCANF', 'SSCAN', 'TOAL'], roots='B', if_types='', let_types='',
+                     leaves={'b': ['p'], 'l': ['y', 'd'], 'S': ['SB']}),
     # five-node family: arithmetic, let and fold lambdas only
     'lam5': dict(kinds=['SUB', 'LET', 'TOS', 'FOLD'], roots='i', if_types='i', let_types='i',
                  leaves={'i': ['x'], 'a': ['A'], 's': ['SA']}),
